@@ -217,7 +217,7 @@ func c14Body() func(h []dsim.Rec) {
 				// keep the node reading until it hits the fault (several frames may be
 				// consumed by one transport read)
 				for i := 0; i < 400; i++ {
-					if l.send(sendValid, false) != nil || l.rxDone {
+					if l.send(sendValid, false) != nil || l.rxEnded() {
 						break
 					}
 					if l.datagram && !e.w.UDPPortOpen(l.nodePort) {
